@@ -247,7 +247,10 @@ where
     pub fn degree(&self) -> usize {
         #[cfg(gdsl_verif)]
         crate::verif_hook::lock_point(&self.inner.2, false);
-        self.inner.2.read().unwrap().len_outbound() + self.inner.2.read().unwrap().len_inbound()
+        // One guard for both lengths: a second read() while the first guard is
+        // alive deadlocks against a writer that queues in between.
+        let adjacent = self.inner.2.read().unwrap();
+        adjacent.len_outbound() + adjacent.len_inbound()
     }
 
     /// Connects this node to another node. The connection is created in both
@@ -428,8 +431,8 @@ where
     pub fn is_orphan(&self) -> bool {
         #[cfg(gdsl_verif)]
         crate::verif_hook::lock_point(&self.inner.2, false);
-        self.inner.2.read().unwrap().len_outbound() == 0
-            && self.inner.2.read().unwrap().len_inbound() == 0
+        let adjacent = self.inner.2.read().unwrap();
+        adjacent.len_outbound() == 0 && adjacent.len_inbound() == 0
     }
 
     /// Returns true if the node is connected to another node with a given key.
